@@ -77,6 +77,14 @@ PROPS = {
         ],
         "not_covered": ["Files::sort", "Files::specification"],
     },
+    "C07": {
+        "units": ["simp_int"],
+        "level": "other",
+        "property_obligations": [],
+        "carriers": [],
+        "explanation": "in progress",
+        "assumptions": [],
+    },
 }
 
 
